@@ -108,7 +108,7 @@ def snapshot_and_annotate(contracts_dir=None, spec_dir=None, patch_fn=None, only
     """-> (scratch_dir, index). Caller removes scratch_dir."""
     contracts_dir = contracts_dir or os.path.join(VERIF, 'contracts')
     spec_dir = spec_dir or os.path.join(VERIF, 'spec')
-    scratch = tempfile.mkdtemp(prefix='dryoc_verif.', dir='/var/tmp')
+    scratch = tempfile.mkdtemp(prefix='dryoc_verif.', dir=os.environ.get('VERIF_SCRATCH', '/var/tmp'))
     shutil.copytree(os.path.join(REPO, 'src'), os.path.join(scratch, 'src'))
     if patch_fn:
         patch_fn(os.path.join(scratch, 'src'))
